@@ -429,7 +429,11 @@ pub fn judge(ctx: &mut Ctx, s: Snap, exp: Expect, up: bool, min_align: usize) {
         let probs = walk(&s, &WalkCfg { up, min_align, expect_empty: exp.empty }, Some(&m));
         drop(m);
         for (sig, d) in probs {
-            ctx.viol("C10", sig, d);
+            let prop = if sig == "later_chunk_smaller_than_twice_previous" { "C12" } else { "C10" };
+            ctx.viol(prop, sig, d);
+        }
+        if s.typed.fwd.len() > 1 {
+            ctx.rep.count("chunk_growth_walked");
         }
     }
     if !exp.empty {
